@@ -376,7 +376,7 @@ func init() {
 				return err.Error()
 			}
 			if c17Install == nil {
-				return "schedule replay needs: /verif/bin/vcheck-sched replay <file>"
+				return "NOT-REPLAYABLE: schedule replay needs the scheduler build: /verif/bin/vcheck-sched replay <file>"
 			}
 			for _, h := range c17Harnesses() {
 				if h.name != w.Harness {
